@@ -388,10 +388,28 @@ const danglingOutputAfterHidden = "genomestart 1\n" +
 	"gene 1 1 3 0.5 false 1 0.5 true\ngene 1 3 4 1.5 false 2 1.5 true\ngene 1 2 4 0.25 false 3 0.25 true\n" +
 	"genomeend 1\n"
 
+// a self-loop flagged NON-recurrent (the readers and verify accept it; mutateAddLink never makes one): the flag is
+// part of a link's identity and must travel unchanged through copies and crossovers
+const selfLoopNonRecurrent = "genomestart 1\n" +
+	"trait 1 0.1 0 0 0 0 0 0 0\n" +
+	"node 1 1 1 1 NullActivation\nnode 2 1 1 3 NullActivation\nnode 3 1 0 2 SigmoidSteepenedActivation\nnode 4 1 0 0 SigmoidSteepenedActivation\n" +
+	"gene 1 1 3 0.5 false 1 0.5 true\ngene 1 2 3 -0.5 false 2 -0.5 true\ngene 1 1 4 1.5 false 3 1.5 true\ngene 1 4 3 0.25 false 4 0.25 true\n" +
+	"gene 1 4 4 0.75 false 5 0.75 true\ngene 1 3 3 -0.25 true 6 -0.25 true\n" +
+	"genomeend 1\n"
+
+// every innovation number negative (any int64 is a number; the counters then start at 1): a small genome in which
+// every non-recurrent link between its nodes already exists
+const negativeInnovations = "genomestart 1\n" +
+	"trait 1 0.1 0 0 0 0 0 0 0\n" +
+	"node 1 1 1 1 NullActivation\nnode 2 1 1 3 NullActivation\nnode 3 1 0 2 SigmoidSteepenedActivation\nnode 4 1 0 0 SigmoidSteepenedActivation\n" +
+	"gene 1 1 3 0.5 false -9 0.5 true\ngene 1 2 3 -0.5 false -8 -0.5 true\ngene 1 1 4 1.5 false -7 1.5 true\ngene 1 2 4 0.25 false -6 0.25 true\n" +
+	"gene 1 4 3 0.75 false -5 0.75 true\n" +
+	"genomeend 1\n"
+
 func startGenomes() []*genetics.Genome {
 	return []*genetics.Genome{readPlain(sensorLast, 1), readPlain(xorStart, 1), readPlain(xorDisconnected, 1), readPlain(tinyGenome, 1),
 		readPlain(nilTraitGenes, 1), readPlain(parallelRecurrent, 1), readPlain(bigMostlyIneligible(), 1), readPlain(sensorOnlyDisabled, 1),
-		readPlain(selfLoopFirst, 1), readPlain(danglingOutputAfterHidden, 1)}
+		readPlain(selfLoopFirst, 1), readPlain(danglingOutputAfterHidden, 1), readPlain(selfLoopNonRecurrent, 1), readPlain(negativeInnovations, 1)}
 }
 
 func startEnv(g *genetics.Genome) *venv {
